@@ -386,6 +386,10 @@ def emit() -> str:
     out.append(f"def nmneDefaultWhenNotCapturing : Bool := {'true' if dflt else 'false'}")
     out.append('def nmneCaptureSource : String := "' + src.replace('"', "'") + '"')
     out.append(f"def nmneObserveReadsClassAttribute : Bool := {'true' if reads else 'false'}")
+    # how ACLObservation.observe reads slot i of the ACL's state (`.get(i)`: a position beyond the slots is None = empty; `[i]` would raise)
+    reads_ = [ast.unparse(n.value) for n in ast.walk(find_method(cls["ACLObservation"], "observe"))
+              if isinstance(n, ast.Assign) and ast.unparse(n.targets[0]) == "rule_state"]
+    out.append("def aclSlotRead : List String := [" + ", ".join('"' + r.replace('"', "'") + '"' for r in reads_) + "]")
     out.append("")
     # categorisers
     out.append(translate_categoriser(cls["ApplicationObservation"], "_categorise_num_executions", "catNumExecutions",
